@@ -381,6 +381,8 @@ func runC26(c *eng.Ctx) {
 			return isS && sfx == "*", true
 		})
 		var prefixGrants, exactGrants []ssa.Instruction
+		grantOnMismatch, grantOther := false, false
+		globalGrants := 0
 		for _, r := range eng.Find(cd, eng.IsReturn) {
 			if t, isT := eng.ConstBool(r.(*ssa.Return).Results[0]); !isT || !t {
 				continue
@@ -391,13 +393,28 @@ func runC26(c *eng.Ctx) {
 				if !isIf {
 					continue
 				}
+				onTrue := p.Succs[0] == r.Block() && p.Succs[1] != r.Block()
 				if call, isCall := iff.Cond.(*ssa.Call); isCall && eng.CalleeIs(call, "strings.HasPrefix") {
 					prefixGrants = append(prefixGrants, iff)
-				}
-				if b, isB := iff.Cond.(*ssa.BinOp); isB && b.Op == token.EQL {
-					if bt, isBasic := b.X.Type().Underlying().(*types.Basic); isBasic && bt.Kind() == types.String && eng.Mentions(b.Y, 4, func(v ssa.Value) bool { return eng.IsParamLike(v, "bucket") }) {
-						exactGrants = append(exactGrants, iff)
+					if !onTrue {
+						grantOnMismatch = true
 					}
+					continue
+				}
+				b, isB := iff.Cond.(*ssa.BinOp)
+				if !isB || (b.Op != token.EQL && b.Op != token.NEQ) {
+					grantOther = true // access granted on some other test
+					continue
+				}
+				if (b.Op == token.EQL) != onTrue {
+					grantOnMismatch = true // granted on the edge where the strings differ
+				}
+				if bt, isBasic := b.X.Type().Underlying().(*types.Basic); isBasic && bt.Kind() == types.String && eng.Mentions(b.Y, 4, func(v ssa.Value) bool { return eng.IsParamLike(v, "bucket") }) {
+					exactGrants = append(exactGrants, iff)
+				} else if eng.IsParamLike(b.Y, "action") || eng.IsParamLike(b.X, "action") {
+					globalGrants++
+				} else if call, isCall := b.X.(*ssa.Call); isCall && eng.CalleeIs(call, "s3api.Identity).isAdmin") {
+					// if identity.isAdmin() compiles to a call condition, not a comparison
 				}
 			}
 		}
@@ -414,8 +431,10 @@ func runC26(c *eng.Ctx) {
 			}
 		}
 		c.Ob("GUARD-auth", eng.FuncName(cd)+" plain-grant-is-exact", okExact, cd.Pos(), "a grant without '*' authorises by string equality with <action>:<bucket> (and Admin:<bucket>)")
+		c.Ob("GUARD-auth", eng.FuncName(cd)+" grants-only-on-matching-edges", !grantOnMismatch && globalGrants == 1, cd.Pos(), fmt.Sprintf("access is granted only on the edge where the compared strings are equal / the prefix matches (a global grant equals the requested action: %d site)", globalGrants))
+		_ = grantOther
 	}
-	c.Expect("GUARD-auth", 15)
+	c.Expect("GUARD-auth", 16)
 
 	// ---------------------------------------------------------------- (5) GUARD-iam
 	if ga := c.NeedFunc("weed/iamapi", "GetActions"); ga != nil {
